@@ -85,6 +85,10 @@ def grid_kwargs(grid):
     for k in ("boundary", "fill_value"):
         if k in ctor and ctor[k]["k"] != "none":
             kw[k] = to_py(ctor[k], nm)
+    if grid.get("fill_den", 1) != 1 and "fill_value" in kw:
+        # records that hold den x the real values hold den x the real fill values as well
+        fv = kw["fill_value"]
+        kw["fill_value"] = {a: v / grid["fill_den"] for a, v in fv.items()} if isinstance(fv, dict) else fv / grid["fill_den"]
     ds_ = ctor.get("default_shifts")
     if ds_ and ds_["k"] == "m":
         kw["default_shifts"] = {nm(a): {f: t for f, t in pairs} for a, pairs in ds_["v"]}
@@ -112,6 +116,8 @@ def make_array(arr, names=None, ds=None, name=None):
     nm = names or Names()
     # a missing value in the input is written as "nan" or as the distinguished integer NAN_INT (the form TLC can read)
     data = np.array([float("nan") if v in ("nan", 2 ** 31 - 7) else float(v) for v in arr["flat"]], dtype="float64").reshape(arr["shape"])
+    if arr.get("den", 1) != 1:
+        data = data / arr["den"]               # the record holds den x the real values (halves, when den = 2)
     if arr.get("dtype") in ("float32", "int64", "int32"):
         data = data.astype(arr["dtype"])       # small integers: exact in every one of these types
     lay = arr.get("layout")
@@ -139,6 +145,9 @@ def call_kwargs(args, names=None):
     for k in ("to", "boundary", "fill_value"):
         if k in args and args[k]["k"] != "none":
             kw[k] = to_py(args[k], nm)
+    if args.get("fill_den", 1) != 1 and "fill_value" in kw:
+        fv = kw["fill_value"]
+        kw["fill_value"] = {a: v / args["fill_den"] for a, v in fv.items()} if isinstance(fv, dict) else fv / args["fill_den"]
     if args.get("npnum") and "fill_value" in kw:
         # the same numbers spelt as numpy scalars (what a value taken out of an array is)
         import numpy as np
